@@ -9,6 +9,7 @@ ErrNotLeader before any call that touches the local database or the Raft log.
 import RqModel.Model.Proxy
 import RqModel.Model.ClientPool
 import RqModel.Gen.ClientConns
+import RqModel.Gen.ProxyFacts
 import RqModel.Gen.StoreGuards
 namespace C20
 open RqModel RqModel.Proxy
@@ -119,9 +120,9 @@ theorem redirect_iff_requested (i : Input) :
     cases hl : i.localOut <;> simp [hn]
 
 /-- ∀ inputs: the HTTP answer is a redirect only for ErrNotLeader with a known
-leader API address -/
+leader API address, when redirects were requested -/
 theorem http_redirect_only_when_requested (i : Input) (known : Bool) :
-    httpOut (run i).2 known = .redirect301 ↔
+    httpOut (run i).2 i.noForward known = .redirect301 ↔
       (i.localOut = .notLeader ∧ i.noForward = true ∧ known = true) := by
   have h := (redirect_iff_requested i).1
   constructor
@@ -129,12 +130,58 @@ theorem http_redirect_only_when_requested (i : Input) (known : Bool) :
     unfold httpOut at hh
     split at hh
     · rename_i he
+      have hne := h.1 he
+      rw [hne.2] at hh
       cases known <;> simp at hh
-      exact ⟨(h.1 he).1, (h.1 he).2, rfl⟩
+      exact ⟨hne.1, hne.2, rfl⟩
     all_goals simp at hh
   · rintro ⟨h1, h2, rfl⟩
-    rw [h.2 ⟨h1, h2⟩]
+    rw [h.2 ⟨h1, h2⟩, h2]
     simp [httpOut]
+
+/-- ∀ request kind and inputs (in particular: the node forwarded to answers "not
+leader" because leadership moved while the request was in flight): the handler never
+returns without writing a response — every request is answered with a redirect, an
+error status, or a body carrying results or an error. The handlers call
+`DoRedirect` and ignore its result, so this rests on the proxy producing ErrNotLeader
+only when redirects were requested. -/
+theorem http_always_answers (i : Input) (known : Bool) :
+    httpOut (run i).2 i.noForward known ≠ .nothing := by
+  intro hh
+  unfold httpOut at hh
+  split at hh
+  · rename_i he
+    have hne := ((redirect_iff_requested i).1).1 he
+    rw [hne.2] at hh
+    cases known <;> simp at hh
+  all_goals simp at hh
+
+/-- the remote node's "not leader" reaches the caller as an error, not as the sentinel -/
+theorem remote_not_leader_is_reported (i : Input) (a : String)
+    (h : i.localOut = .notLeader) (hf : i.noForward = false) (ha : i.addrOut = .addr a)
+    (hr : i.remoteOut = .notLeader) :
+    (run i).2 = .errRemoteNotLeader ∧ httpOut (run i).2 i.noForward true = .body := by
+  have : (run i).2 = .errRemoteNotLeader := by
+    unfold run
+    rw [h]
+    simp [hf, ha, hr]
+  exact ⟨this, by rw [this]; simp [httpOut]⟩
+
+/-- fact obligation: in proxy/proxy.go every statement that produces ErrNotLeader sits
+under `if noForward`, the only function applied to a forwarding error is
+wrapIfUnauthorized and it maps nothing but "unauthorized"; in http/*.go every
+ErrNotLeader branch is `s.DoRedirect(w, r, qp); return`. -/
+theorem not_leader_only_under_redirect_flag :
+    Gen.ProxyFacts.notLeaderSources.map (·.1) =
+      ["Execute", "Query", "Request", "Backup", "Load", "Remove", "Stepdown"] ∧
+    Gen.ProxyFacts.notLeaderSources.all (fun s =>
+      s.2.2 == ["errors.Is(err, store.ErrNotLeader)", "noForward"]) = true ∧
+    Gen.ProxyFacts.remoteErrorWrappers = ["wrapIfUnauthorized"] ∧
+    Gen.ProxyFacts.wrapIfUnauthorizedBody =
+      ["if err == nil { return nil }", "if err.Error() == \"unauthorized\" { return ErrUnauthorized }", "return err"] ∧
+    Gen.ProxyFacts.httpNotLeaderBranches.all (fun b =>
+      b.2 == ["s.DoRedirect(w, r, qp)", "return"] || b.2 == ["s.DoRedirect(w, r, qp)", "return true"]) = true ∧
+    Gen.ProxyFacts.httpNotLeaderBranches.length = 7 := by decide
 
 /-- ∀ inputs: on the leader (or on any local error other than "not leader") nothing
 is forwarded and the local answer is passed through -/
@@ -326,6 +373,6 @@ def exRedirect : Input := { exForward with kind := .backup, creds := none, noFor
 
 example :
     run exRedirect = ([.localStore .backup 9], .errNotLeader) ∧
-    httpOut (run exRedirect).2 true = .redirect301 := by decide
+    httpOut (run exRedirect).2 true true = .redirect301 := by decide
 
 end C20
